@@ -197,10 +197,16 @@ def _is_descendant(anc, node):
     return any(e is node for e in anc.iter())
 
 
+_PRIVKEY_CACHE = {}  # PEM bytes -> key object (load_pem_private_key validates the RSA key: ~0.1 s per call)
+
+
 def _load_privkey(path):
     with open(path, "rb") as f:
         data = f.read()
-    return serialization.load_pem_private_key(data, password=None)
+    key = _PRIVKEY_CACHE.get(data)
+    if key is None:
+        key = _PRIVKEY_CACHE[data] = serialization.load_pem_private_key(data, password=None)
+    return key
 
 
 def _load_cert_pubkey(path):
